@@ -285,7 +285,11 @@ Eval(t, sc) ==
           ELSE IF f.k # "fn" THEN Null
           ELSE IF \E i \in 1..Len(args) : IsU(args[i]) THEN Unspec
           ELSE IF \E i \in 1..Len(f.ps) : f.ps[i].ty.t # "Any" THEN Unspec          \* typed parameters: C16
-          ELSE IF Len(args) # Len(f.ps) THEN Unspec                                  \* wrong number of arguments
+          ELSE IF Len(args) > Len(f.ps) THEN Unspec                                  \* more arguments than parameters
+          \* fewer: an error (null), or - the other reading - the remaining parameters are null; never anything else,
+          \* in particular the parameter's name is not looked up where the call is made
+          ELSE IF Len(args) < Len(f.ps) THEN
+               Alt(Null, Invoke(f, [i \in 1..Len(f.ps) |-> [n |-> f.ps[i].p, v |-> IF i <= Len(args) THEN args[i] ELSE Null]], TRUE))
           ELSE Invoke(f, [i \in 1..Len(f.ps) |-> [n |-> f.ps[i].p, v |-> args[i]]], TRUE))
     [] t.n = "invoken" ->
          (LET f == Eval(t.f, sc) IN
